@@ -3,8 +3,25 @@ import PydjinniModel.Props.C11Closed
 /-!
 # C05 — the operational model reports exactly the violations of the declarative specification
 
-`Front/Sem.lean` (visitor, resolution loop, post-checks) and `Front/Spec.lean` (`declRules`, `violations`) are two
-descriptions of the same rules in two vocabularies. This file is the bridge.
+`Front/Sem.lean` (visitor `walk*`, resolution loop, post-checks `check*`, composed in `Imports.finishFile`) and
+`Front/Spec.lean` (`refRule`, `sigRules`, `declRules`, `violations`) describe the same rules in two vocabularies. This
+file is the bridge between them; all statements are membership equivalences between diagnostics (class, rule tag,
+file, position all agree), for arbitrary member counts, nesting depths and namespace depths.
+
+* `reported_walkT`           one written type reference, at any depth below it: unknown type / generic arity of every
+                             `dataType` node, the signature rules of every inline function type, its targets
+* `reported_enum`, `reported_flags`, `reported_record`, `reported_interface`, `reported_function`, `reported_error`
+                             kind by kind
+* `reported_walkDecl` / `walkDecl_eq_declRules`   **per declaration**: visit-time ∪ reference-level ∪ post-resolution
+                             diagnostics = `declRules`
+* `reported_walkContents`    lifted over namespaces at any depth
+* `registerAll_eq_progRegistry`   the registry a file is finished with is `progRegistry` of the one-file program
+* `finishFile_eq_violations` (and `…_of_fresh`)   **per file**: `finishFile` succeeds, binds lexically, and its
+                             diagnostics are exactly `violations`
+* `accepted_iff_no_violation`
+* `C05SpecExamples`          two concrete files (kernel-evaluated on both sides)
+
+No disagreement between the model and the specification was found: no declaration kind or rule is excluded.
 -/
 namespace Pydjinni.Front
 
@@ -1130,5 +1147,106 @@ theorem accepted_iff_no_violation (cfg : Cfg) (file : APath) (contents : List Co
     have := (hds x).mp hx
     rw [hv] at this
     exact absurd this (by simp)
+
+/-! ### non-vacuity -/
+
+namespace C05SpecExamples
+
+def p (l c : Nat) : Pos := ⟨l, c, l, c + 1⟩
+def builtins : Registry := [⟨"i32", .primitive, 0⟩, ⟨"list", .collection, 1⟩]
+def path : APath := ["w", "x.pydjinni"]
+def st0 : PState := { reg := builtins }
+def cfg1 : Cfg := { cwd := [], includeDirs := [], keys := ["cpp", "java"], defaultDeriving := [] }
+def cfg2 : Cfg := { cwd := [], includeDirs := [], keys := ["cpp", "java"], defaultDeriving := ["ord"] }
+
+def contents1 : List Content :=
+  [ .decl (.flags "fl" [] [⟨"a", some "bogus", p 1 4, [], p 1 0⟩, ⟨"b", some "all", p 2 4, [], p 2 0⟩] (p 1 0)),
+    .decl (.error "err" []
+      [⟨"c", [.mk "x" (.data "nope" [] false (p 4 8)) (p 4 6),
+              .mk "y" (.data "i32" [.data "i32" [] false (p 4 20)] false (p 4 16)) (p 4 14)], [], p 4 2⟩] (p 3 0)),
+    .decl (.record "rec" [] [] (p 6 0)
+      [⟨"f", .data "err" [] false (p 7 5), [], p 7 2⟩,
+       ⟨"g", .data "list" [.data "i32" [] false (p 8 10)] false (p 8 5), [], p 8 2⟩]
+      (some [("ord", p 9 12)]) (p 6 0)) ]
+
+def inner2 : List Content :=
+      [ .decl (.interface "ifc" [] true ["+java"] (p 3 10)
+          [ ⟨"m1", true, true, false, [.mk "x" (.data "err" [] false (p 4 10)) (p 4 8)],
+              some [.data "i32" [] false (p 4 30)], some (.data ".err" [] false (p 4 40)), [], p 4 2⟩ ]
+          [ ⟨"pr", .fn (.mk (some ["+zz"]) (p 5 20) [.mk "q" (.data "err" [] false (p 5 30)) (p 5 28)] none none) (p 5 10), [], p 5 2⟩ ]
+          (p 3 0)),
+        .decl (.function "cb" []
+          (.mk (some ["+qq"]) (p 6 5) [] (some [.data "ifc" [] false (p 6 30)])
+            (some (.data "list" [.fn (.mk none (p 6 50) [] none (some (.data "err" [] false (p 6 60)))) (p 6 45)] false (p 6 40))))
+          (p 6 0)),
+        .decl (.record "rec" [] ["+yy"] (p 7 8)
+          [⟨"f", .fn (.mk none (p 8 6) [] none none) (p 8 5), [], p 8 2⟩,
+           ⟨"g", .data "ifc" [] false (p 9 5), [], p 9 2⟩,
+           ⟨"h", .data "list" [] false (p 10 5), [], p 10 2⟩]
+          (some [("hash", p 11 12)]) (p 7 0)) ]
+
+def contents2 : List Content := [ .decl (.error "err" [] [] (p 1 0)), .ns "a" [] inner2 (p 2 0) ]
+
+/-- the diagnostics list `finishFile` returns (`none`: it aborted) -/
+def errorsOf (r : Except Abort (PResult × PState)) : Option (List Diag) :=
+  match r with | .ok (r, _) => some r.errors | .error _ => none
+
+
+def d1 (r : String) (l c : Nat) : Diag := mk "ParsingException" r "/w/x.pydjinni" (p l c)
+
+def expected1 : List Diag :=
+  [ d1 "flag-modifier" 1 4, mk "TypeResolvingException" "unknown-type" "/w/x.pydjinni" (p 4 8), d1 "no-generics" 4 16,
+    d1 "field-error" 7 5, d1 "ord-collection" 8 2 ]
+
+/-- **Both sides are the same non-empty list** (five different rules: a visit-time rule, two reference rules, two
+    post-resolution rules), computed by the kernel from the two definitions independently. -/
+example :
+    errorsOf (finishFile cfg1 path contents1 {} st0) = some expected1
+    ∧ violations cfg1.keys cfg1.defaultDeriving st0.reg [{ file := showPath path, contents := contents1 }] = expected1 := by
+  constructor <;> decide +kernel
+
+/-- the hypotheses of `finishFile_eq_violations_of_fresh` hold for this file -/
+example := finishFile_eq_violations_of_fresh cfg1 path contents1 st0 rfl (by decide +kernel) (by decide +kernel) (by decide +kernel)
+
+open C11ClosedExamples in
+theorem walk2 (e : Env) : walkContents e [] contents2
+    = walkDecl e [] (.error "err" [] [] (p 1 0)) ++ (walkContents e ["a"] inner2 ++ {}) := by
+  simp only [contents2, walkContents, walkContent, split_a, List.nil_append]
+
+open C11ClosedExamples in
+theorem decls2 : declsOfContents [] contents2 = ([], .error "err" [] [] (p 1 0)) :: declsOfContents ["a"] inner2 := by
+  simp only [contents2, declsOfContents, declsOfContent, split_a, List.nil_append, List.append_nil, List.singleton_append]
+
+def expected2Sem : List Diag :=
+  [ d1 "static-const" 4 2, d1 "unknown-target" 5 20, d1 "main-cpp" 3 0, d1 "static-cpp" 4 2, d1 "unknown-target" 6 5,
+    d1 "fn-field" 8 5, d1 "deriving" 11 12, d1 "unknown-target" 7 8, d1 "param-error" 5 30, d1 "return-error" 4 40,
+    d1 "throws-non-error" 4 30, d1 "param-error" 4 10, d1 "return-error" 6 60, d1 "throws-non-error" 6 30,
+    d1 "field-interface" 9 5, d1 "ord-collection" 10 2 ]
+
+def expected2Spec : List Diag :=
+  [ d1 "param-error" 4 10, d1 "return-error" 4 40, d1 "throws-non-error" 4 30, d1 "param-error" 5 30,
+    d1 "unknown-target" 5 20, d1 "main-cpp" 3 0, d1 "static-const" 4 2, d1 "static-cpp" 4 2, d1 "throws-non-error" 6 30,
+    d1 "return-error" 6 60, d1 "unknown-target" 6 5, d1 "unknown-target" 7 8, d1 "deriving" 11 12, d1 "fn-field" 8 5,
+    d1 "field-interface" 9 5, d1 "ord-collection" 10 2 ]
+
+theorem sem2 : errorsOf (finishFile cfg2 path contents2 {} st0) = some expected2Sem := by
+  unfold finishFile
+  simp only [walk2]
+  decide +kernel
+
+theorem spec2 : violations cfg2.keys cfg2.defaultDeriving st0.reg [{ file := showPath path, contents := contents2 }] = expected2Spec := by
+  unfold violations progRegistry
+  rw [progDecls_single, decls2]
+  decide +kernel
+
+/-- sixteen diagnostics of twelve different rules, through a namespace, a property of inline function type, an inline
+    function inside a generic argument of a named function's return type, and the default deriving: the same
+    diagnostics on both sides (the order differs: the visitor reports by phase, the specification by declaration) -/
+example : expected2Sem.Perm expected2Spec := by decide +kernel
+
+/-- the hypotheses of `finishFile_eq_violations_of_fresh` hold for this file, too -/
+example := finishFile_eq_violations_of_fresh cfg2 path contents2 st0 rfl
+  (by rw [decls2]; decide +kernel) (by rw [decls2]; decide +kernel) (by simp only [walk2]; decide +kernel)
+end C05SpecExamples
 
 end Pydjinni.Front
